@@ -98,10 +98,10 @@ func vh_C17_writes() {
 func vh_C17_matrix() {
 	vFormatOpaque(true)
 	env := vStdEnvs(1)[0]
-	fields := []string{"Name", "Number", "Weight", "Good"}
-	ftypes := []int{1, 0, 2, 3} // kind index that matches each field
+	fields := []string{"Name", "Number", "Weight", "Good", "NotDeclared"}
+	ftypes := []int{1, 0, 2, 3, -1} // kind index that matches each field (-1: the field does not exist, nothing matches)
 	fi := vChoice("field", len(fields))
-	kind := vChoice("kind", 6)
+	kind := vChoice("kind", 8)
 	route := vChoice("route", 4)
 	payload := vSmallInt("payload")
 	var val Sexp
@@ -116,11 +116,18 @@ func vh_C17_matrix() {
 		val = &SexpBool{Val: true}
 	case 4:
 		val = vA(env, payload)
-	default:
+	case 5:
 		val = vL(vS(env, "hash"), vL(vS(env, "quote"), vS(env, "k")), payload)
+	case 6:
+		val = SexpNull
+	default:
+		val = vA(env) // the empty slice
 	}
 	if kind == 0 && fi == 2 {
 		vDone() // int into a float64 field: conversion rule not stated
+	}
+	if kind >= 6 && ftypes[fi] >= 0 {
+		vDone() // nil / [] into a declared field: "accepted where the language says so" - not asserted either way
 	}
 	for _, f := range vT(env, vC17Decl+`(def d (Dog Name: "rover" Number: 77 Weight: 1.5 Good: false))`) {
 		if _, err, p := vEval(env, f); err != nil || p {
